@@ -107,8 +107,16 @@ def classify(kind, v, spec, py, rs):
     """Known root causes (each a predicate over spec fields, value class and outcome kinds)."""
     f = fields(spec)
     pk, rk = py[0], rs[0]
-    if spec.startswith("!") and pk == "ERR" and rk != "PANIC":
-        return "leading-conversion-accepted-in-format-spec"
+    if spec[:2] in ("!s", "!r", "!a", "!b") and pk == "ERR":
+        # exactly: the crate skips `!c` and then behaves as it does for the rest of the specification (which may show
+        # another known deviation, or none)
+        rest = spec[2:]
+        py2 = py_format(v, rest)
+        if py2[0] == rs[0] and (py2[0] == "ERR" or py2[1] == rs[1]):
+            return "leading-conversion-accepted-in-format-spec"
+        if not rest.startswith("!") and classify(kind, v, rest, py2, rs):
+            return "leading-conversion-accepted-in-format-spec"
+        return None
     if f is None:
         return None
     t = f["type"]
